@@ -88,19 +88,21 @@ struct Surf {
         default: return std::sqrt(sq(rho(p) - R) + p[2] * p[2]) - r;
         }
     }
-    // the library's implicit function (documented form, decreasing outwards) and |its gradient|
+    // the function the library's geodesic integrator constrains (ContactGeometryImpl::calcSurfaceValue:
+    // r^2-|p|^2 for sphere and cylinder -- *not* their getImplicitFunction(), which is 1-|p|^2/r^2 --
+    // and the dimensionless implicit function for ellipsoid and torus) and |its gradient|
     double fLib(const Vec3& p) const {
         switch (kind) {
-        case K_Sphere: return 1 - p.normSqr() / (r * r);
-        case K_Cylinder: return 1 - (p[0] * p[0] + p[1] * p[1]) / (r * r);
+        case K_Sphere: return r * r - p.normSqr();
+        case K_Cylinder: return r * r - (p[0] * p[0] + p[1] * p[1]);
         case K_Ellipsoid: return -phi(p);
         default: return 1 - (sq(R - rho(p)) + p[2] * p[2]) / (r * r);
         }
     }
     double gLibNorm(const Vec3& p) const {
         switch (kind) {
-        case K_Sphere: return 2 * p.norm() / (r * r);
-        case K_Cylinder: return 2 * rho(p) / (r * r);
+        case K_Sphere: return 2 * p.norm();
+        case K_Cylinder: return 2 * rho(p);
         case K_Ellipsoid: return grad(p).norm();
         default: return 2 * std::sqrt(sq(rho(p) - R) + p[2] * p[2]) / (r * r);
         }
@@ -258,7 +260,7 @@ static bool checkSequence(Ctx& c, const Surf& S, const std::vector<Knot>& kn, do
         if (pe / tolPe >= wPerp) { wPerp = pe / tolPe; iPerp = i; }
     }
     c.check("onsurface:" + tag, wOn * tolOnMin, tolOnMin, W(q.implicit ? "|f(knot)| exceeds the constraint tolerance" : "knot point off the surface", iOn));
-    c.check("tangent-unit:" + tag, wUnit, 8 * EPS, W("tangent not unit", iUnit));
+    c.check("tangent-unit:" + tag, wUnit, q.implicit ? 8 * EPS : 4 * EPS * (N + 16), W("tangent not unit", iUnit));
     c.check("tangent-perp-normal:" + tag, wPerp, 1.0, W("tangent has a component along the surface normal (ratio to tolerance)", iPerp));
     // --- consecutive knots: chord vs arc, tangent = dp/ds (trapezoid), FD geodesic curvature
     double wChordHi = 0, wChordLo = 0, wTrap = 0, wKg = 0; int iCh = 0, iCl = 0, iTr = 0, iKg = 0; int nTrap = 0, nKg = 0;
@@ -365,6 +367,10 @@ struct CoutCapture {
     std::string take() { std::string s = ss.str(); ss.str(""); return s; }
 };
 
+// The Geodesic-object interfaces leave the translational ("positional") Jacobi scalars as NaN
+// on some paths (documented "XXX"/"TODO" in the sources): all-NaN = not provided (counted),
+// partly NaN = judged as non-finite output.
+static bool jtNotProvided(const std::vector<struct Knot>& kn);
 static std::vector<Knot> fromGeodesic(const Geodesic& g, bool& sizesOk) {
     std::vector<Knot> kn;
     int n = g.getNumPoints();
@@ -378,6 +384,11 @@ static std::vector<Knot> fromGeodesic(const Geodesic& g, bool& sizesOk) {
         kn.push_back(k);
     }
     return kn;
+}
+
+static bool jtNotProvided(const std::vector<Knot>& kn) {
+    for (auto& k : kn) if (!(std::isnan(k.jt) && std::isnan(k.jtd))) return false;
+    return !kn.empty();
 }
 
 // Frenet-frame and curvature bookkeeping of a Geodesic object
@@ -612,6 +623,7 @@ static void runCase(Ctx& c, long idx, Rng& r) {
             bool sizesOk; knC = fromGeodesic(gC, sizesOk);
             okC = c.require("geodesic-arrays-same-size:implicit-geodesic:" + sname, sizesOk, WD("Geodesic arrays have different lengths"));
         }
+        if (okC && jtNotProvided(knC)) { qC.hasJt = false; c.obs("geodesic-object-translational-jacobi-not-provided:implicit-geodesic"); }
         if (okC) okC = checkSequence(c, S, knC, L, qC, &BC, &endC, &endCErr);
         if (okC) {
             c.cover(covBase + "implicit-geodesic/" + lenName(lenClass) + (dirClass != "general" ? "/special-dir" : ""));
@@ -626,7 +638,20 @@ static void runCase(Ctx& c, long idx, Rng& r) {
                 c.check("end-vs-reference-tangent:implicit-geodesic:" + sname, (z.t - endC.t).norm(), e.t, WD("end tangent differs from closed form / reference geodesic"));
                 c.check("end-vs-reference-jacobiQ:implicit-geodesic:" + sname, std::fabs(gC.getJacobiQ() - endC.jr), e.jr, WD("getJacobiQ() differs from closed form / reference"));
                 c.check("end-vs-reference-jacobiQDot:implicit-geodesic:" + sname, std::fabs(gC.getJacobiQDot() - endC.jrd), e.jrd, WD("getJacobiQDot() differs from closed form / reference"));
-                c.check("end-vs-reference-jacobiTransQ:implicit-geodesic:" + sname, std::fabs(gC.getJacobiTransQ() - endC.jt), e.jt, WD("getJacobiTransQ() differs from closed form / reference"));
+                if (qC.hasJt) c.check("end-vs-reference-jacobiTransQ:implicit-geodesic:" + sname, std::fabs(gC.getJacobiTransQ() - endC.jt), e.jt, WD("getJacobiTransQ() differs from closed form / reference"));
+                // backwards field through the public completion call: jP(0) must equal jQ(L) in magnitude
+                if (r.coin(0.25)) {
+                    c.setPhase("calcGeodesicReverseSensitivity " + sname);
+                    bool okR = false;
+                    try { geom.calcGeodesicReverseSensitivity(gC, Vec2(0, 1)); okR = true; }
+                    catch (const std::exception& ex) { c.viol("exception:reverse-sensitivity:" + sname, Json::obj().set("case", desc).set("what", firstLine(ex.what(), 400))); }
+                    if (okR && c.require("reverse-sensitivity-size:implicit-geodesic:" + sname, (int)gC.getDirectionalSensitivityQtoP().size() == gC.getNumPoints(), WD("QtoP sensitivity array has the wrong length"))) {
+                        double jP = gC.getJacobiP(), jQ = gC.getJacobiQ();
+                        c.check("jacobiP-equals-jacobiQ:implicit-geodesic:" + sname, std::fabs(std::fabs(jP) - std::fabs(jQ)), 2 * e.jr + 20 * ((int)knC.size() - 1) * 1e-6 * (1 + BC.JR / S.charR + BC.JT),
+                                [&]() { Json j = desc; j.set("what", "|getJacobiP()| != |getJacobiQ()| after calcGeodesicReverseSensitivity (the Wronskian of j''+Kj=0 is constant)").set("jP", jP).set("jQ", jQ); return j; });
+                        c.cover(covBase + "reverse-sensitivity/" + lenName(lenClass));
+                    }
+                }
                 if (okA && wellCond && !approxStart) {
                     EndTol ea = endTol(S, qA, (int)knA.size() - 1, L, BA, 0);
                     c.check("implicit-sink-vs-geodesic-point:" + sname, (knA.back().p - z.p).norm(), ea.p + e.p, WD("the two implicit interfaces disagree on the end point"));
@@ -652,6 +677,7 @@ static void runCase(Ctx& c, long idx, Rng& r) {
         if (okD) {
             bool sizesOk; std::vector<Knot> knD = fromGeodesic(gD, sizesOk);
             PathBound BD; RefState endD; double endDErr = 0;
+            if (qD.hasJt && jtNotProvided(knD)) { qD.hasJt = false; c.obs("geodesic-object-translational-jacobi-not-provided:analytic-geodesic"); }
             if (c.require("geodesic-arrays-same-size:" + qD.tag, sizesOk, WD("Geodesic arrays have different lengths")) &&
                 checkSequence(c, S, knD, L, qD, &BD, &endD, &endDErr)) {
                 c.cover(covBase + (qD.implicit ? "analytic-geodesic-fallback/" : "analytic-geodesic/") + lenName(lenClass));
@@ -793,6 +819,7 @@ static void runCase(Ctx& c, long idx, Rng& r) {
                     else {
                         bool sizesOk; std::vector<Knot> kn = fromGeodesic(g, sizesOk);
                         PathBound B; RefState en; double enErr;
+                        if (jtNotProvided(kn)) { q.hasJt = false; c.obs("geodesic-object-translational-jacobi-not-provided:two-point-orthogonal"); }
                         if (c.require("geodesic-arrays-same-size:" + q.tag, sizesOk, W2("Geodesic arrays have different lengths", 0)) &&
                             checkSequence(c, S, kn, g.getLength(), q, &B, &en, &enErr)) {
                             checkGeodesicObject(c, S, g, q.tag, false);
@@ -814,6 +841,34 @@ static void runCase(Ctx& c, long idx, Rng& r) {
                     }
                 } else if (ok) c.viol("two-point-empty:two-point-orthogonal:" + sname, d2);
             }
+        }
+    }
+    // ---------------- G: history: a plane-terminated shot must not change what a later
+    // length-terminated shot on the same surface object returns
+    if (okC && r.coin(0.3)) {
+        RefState mid; mid.p = p0; mid.t = t0; advance(S, mid, 0.5 * L);
+        const double d0 = ~mid.t * (p0 - mid.p);
+        if (std::fabs(d0) > 1e-3 * S.size) {
+            Geodesic gp; bool okP = false;
+            c.setPhase("shootGeodesicInDirectionUntilPlaneHit " + sname);
+            try { geom.shootGeodesicInDirectionUntilPlaneHit(p0, UnitVec3(t0), Plane(UnitVec3(mid.t), ~mid.t * mid.p), GeodesicOptions(), gp); okP = true; }
+            catch (const std::exception& ex) { c.viol("exception:plane-hit-geodesic:" + sname, Json::obj().set("case", desc).set("what", firstLine(ex.what(), 400))); }
+            if (okP && gp.getNumPoints() >= 2) {
+                // the geodesic meets the plane for the first time no later than at s = L/2
+                c.check("plane-hit-length:plane-hit-geodesic:" + sname, gp.getLength() - 0.5 * L, 1e-4 * L, WD("plane-terminated geodesic ran past the known crossing"));
+                c.check("plane-hit-end-on-plane:plane-hit-geodesic:" + sname, std::fabs(~mid.t * (gp.getPointQ() - mid.p)), 1e-4 * (S.size + L), WD("plane-terminated geodesic does not end on the plane"));
+                c.check("plane-hit-end-on-surface:plane-hit-geodesic:" + sname, std::fabs(S.dist(gp.getPointQ())), 1e-7 * S.size, WD("plane-terminated geodesic's end point is off the surface"));
+                Geodesic g2; bool ok2 = false;
+                c.setPhase("shootGeodesicInDirectionUntilLengthReached after a plane-terminated shot " + sname);
+                try { geom.shootGeodesicInDirectionUntilLengthReached(p0, UnitVec3(t0), L, GeodesicOptions(), g2); ok2 = true; }
+                catch (const std::exception& ex) { c.viol("exception:implicit-geodesic-after-planehit:" + sname, Json::obj().set("case", desc).set("what", firstLine(ex.what(), 400))); }
+                if (ok2) {
+                    double got = g2.getLength();
+                    c.check("length-after-plane-hit-shot:implicit-geodesic:" + sname, std::fabs(got - L), 8 * EPS * L,
+                            [&]() { Json j = desc; j.set("what", "shootGeodesicInDirectionUntilLengthReached returned a different length after an earlier shootGeodesicInDirectionUntilPlaneHit on the same ContactGeometry (stale plane event)").set("got", got).set("planeHitLength", gp.getLength()); return j; });
+                    c.cover(covBase + "implicit-geodesic-after-planehit/" + lenName(lenClass));
+                }
+            } else if (okP) c.obs("plane-hit-geodesic-empty");
         }
     }
     if (c.wantSample() && okA) c.sample(Json::obj().set("case", desc).set("implicit_knots", (int)knA.size()).set("end", jV3(knA.back().p)).set("jacobiRot", knA.back().jr));
